@@ -35,7 +35,7 @@ import os, sys
 sys.path.insert(0, os.path.dirname(os.path.abspath(__file__)))
 from gens import V, level_sorted
 
-KNOWN_BAD_TAGS = ("leader_not_first_factor", "metrics_partitioned_index_math", "eager_root_after_lookup_rank")
+KNOWN_BAD_TAGS = ("leader_not_first_factor", "eager_root_after_lookup_rank")      # metrics_partitioned_index_math: repaired by b32f93e, now an ordinary class
 EXPECT_REJECT_TAGS = ("empty_seq_binding", "empty_compute_binding", "empty_merger_binding", "intersector_no_coiteration",
                       "intersector_on_projected_rank", "two_finger_three_way", "buffer_source_no_bandwidth",
                       "eager_evict_root_only", "eager_rank0_output", "eager_on_projected_rank", "format_names_foreign_rank")
